@@ -108,8 +108,15 @@ fn same_outputs(a: &FcRun, b: &FcRun) -> Option<String> {
 }
 
 fn inject_bad(rng: &mut Rng, pkg: &mut APkg) -> Option<usize> {
-  // a function without return type in one module (exported, so it is public if the module is reached)
   let i = rng.below(pkg.files.len());
+  if rng.chance(1, 3) && !pkg.files.iter().any(|f| f.path == "/untyped.js") {
+    // a diagnostic of the range finder rather than of the transform: a module of the public API
+    // re-exports an untyped JavaScript module
+    pkg.files[i].items.insert(0, Item::ExportStar { from: "./untyped.js".into() });
+    pkg.files.push(AFile { path: "/untyped.js".into(), items: vec![Item::SideEffect("export const untypedValue = 1;".into())] });
+    return Some(i);
+  }
+  // a function without return type in one module (exported, so it is public if the module is reached)
   let d = Decl {
     name: format!("bad{}", i),
     exported: true,
@@ -227,7 +234,7 @@ pub fn run(tier: &str, seed: u64) -> Report {
       report.fail("oracle", "warm-run-rewrites-cache-entry", "a warm run on unchanged sources changed the cache".into(), replay.clone());
     }
     // edit
-    let kind = ["implementation", "signature", "introduce-slow-type", "remove-slow-type", "outside-public-api"][wi % 5];
+    let kind = ["implementation", "signature", "introduce-slow-type", "remove-slow-type", "outside-public-api", "drop-reference-to-untyped-module"][wi % 6];
     let failed = w0.pkgs.iter().any(|p| pkg_failed(&r0, p));
     let Some(w1) = edit(&mut rng, w0, kind, &r0) else {
       report.count("edit:not-applicable");
@@ -629,6 +636,23 @@ fn edit(rng: &mut Rng, w: &FcWorld, kind: &str, r0: &FcRun) -> Option<FcWorld> {
         if t != f.1 {
           f.1 = t;
           changed = true;
+        }
+      }
+      if !changed {
+        return None;
+      }
+    }
+    "drop-reference-to-untyped-module" => {
+      // the modules that re-export the untyped module stop doing so; the untyped module itself is unchanged
+      let mut changed = false;
+      for p in w1.pkgs.iter_mut() {
+        for f in p.files.iter_mut() {
+          // (still imported, for its effects only: the module stays in the graph with the same source)
+          let t = f.1.replace("export * from \"./untyped.js\";\n", "import \"./untyped.js\";\n");
+          if t != f.1 {
+            f.1 = t;
+            changed = true;
+          }
         }
       }
       if !changed {
